@@ -142,6 +142,10 @@ def _extra():
         add("opt-memory-write-aliases", "unsigned char a[4]; unsigned char r;", "r = 0; X = %d; if (a[1] == 3) { a[X]--; if (a[1] == 2) r = 1; }" % x, {"init": {"a+1": 3, "a+2": 3}, "expect": {"r": int(x == 1)}}, "DEC a,X between two reads of a[1], X=%d" % x)
     for k in (128, 127, 0):
         add("opt-symbolic-immediate", "const char arr[] = {1,2}; unsigned char i, j;", "j = 0; i = arr; if (i != %d) j = 1;" % k, {"expect": {"j": int(k != 128)}}, "low byte of an address (128 on the interpreter) compared with %d" % k)
+    # load(<expression with a deferred ++>): the value loaded survives the flush of the deferred effect
+    for y in (1, 2):
+        add("load-with-deferred-effects", "unsigned char arr[4], z;", "Y = %d; load(arr[Y]++); store(z);" % y, {"init": {"arr+%d" % y: 7}, "expect": {"z": 7, "arr+%d" % y: 8}}, "load(arr[Y]++); store(z); Y=%d" % y)
+    add("load-with-deferred-effects", "unsigned char i, z;", "load(i++); store(z);", {"init": {"i": 7}, "expect": {"z": 7, "i": 8}}, "load(i++); store(z);")
     # ---- recorded known findings (reported by the hunting sub-agents, confirmed here, not repaired: see known_findings.jsonl) ----
     add("kf-char-assignment-nested-in-16bit-assignment", "short s, t; unsigned char a;", "s = 0x5555; s = a = t;", {"init": {"t": 7, "t+1": 2}, "expect": {"a": 7}, "expect16": {"s": 7}}, "s = a = t: the value of `a = t` is a's, high byte 0")
     add("kf-postincrement-in-call-argument", "unsigned char i, r; void f(unsigned char p) { r = i; }", "i = 5; f(i++);", {"expect": {"r": 6, "i": 6}}, "f(i++): the increment happens before the call (sequence point)")
